@@ -27,6 +27,7 @@ def setFlag (fl : Flags) (kv : String) : Flags :=
   | ["smrej", v] => { fl with spendMissingRejected := bit v }
   | ["smrejbrowser", v] => { fl with spendMissingRejectedBrowser := bit v }
   | ["smrejspv", v] => { fl with spendMissingRejectedSpv := bit v }
+  | ["gtvrej", v] => { fl with gtShortRejectedAtVerify := bit v }
   | _ => fl
 
 def parseLim (s : String) : Option Lim :=
